@@ -8,6 +8,7 @@ pub mod neg_mc;
 pub mod oracle;
 pub mod report;
 pub mod sched;
+pub mod sysched;
 pub mod sched_mc;
 pub mod serve_mc;
 pub mod stream_mc;
